@@ -411,10 +411,10 @@ static void scaleGlobalCase(Rng &rng, CaseResult &r) {
 
 int main(int argc, char **argv) {
   std::vector<vf::Part> parts;
-  parts.push_back({"c17.lsq.star", [](uint64_t, Rng &rng, CaseResult &r) { lsqStarCase(rng, r); }, 120});
-  parts.push_back({"c17.lsq.twopin", [](uint64_t, Rng &rng, CaseResult &r) { lsqTwoPinCase(rng, r); }, 120});
-  parts.push_back({"c17.pow2.model", [](uint64_t, Rng &rng, CaseResult &r) { scaleModelCase(rng, r, true); }, 120});
-  parts.push_back({"c17.scale.model", [](uint64_t, Rng &rng, CaseResult &r) { scaleModelCase(rng, r, false); }, 120});
-  parts.push_back({"c17.pow2.global", [](uint64_t, Rng &rng, CaseResult &r) { scaleGlobalCase(rng, r); }, 300});
+  parts.push_back({"c17.lsq.star", [](uint64_t, Rng &rng, CaseResult &r) { lsqStarCase(rng, r); }, 20});
+  parts.push_back({"c17.lsq.twopin", [](uint64_t, Rng &rng, CaseResult &r) { lsqTwoPinCase(rng, r); }, 20});
+  parts.push_back({"c17.pow2.model", [](uint64_t, Rng &rng, CaseResult &r) { scaleModelCase(rng, r, true); }, 20});
+  parts.push_back({"c17.scale.model", [](uint64_t, Rng &rng, CaseResult &r) { scaleModelCase(rng, r, false); }, 20});
+  parts.push_back({"c17.pow2.global", [](uint64_t, Rng &rng, CaseResult &r) { scaleGlobalCase(rng, r); }, 60});
   return vf::runMain(argc, argv, parts);
 }
